@@ -489,12 +489,12 @@ Proof.
     rewrite (G (length tree)) by lia. lia.
 Qed.
 
-Lemma skip_consumed bf i n : bf_valid bf = true -> 0 <= n -> (bf <= 4 -> n * bf + 6 < U32) ->
+Lemma skip_consumed bf i n : bf_valid bf = true -> 0 <= n -> (bf <= 4 -> snd (st_of_index bf i) + n * bf < U32) ->
   exists s2, ibs_skip bf (st_of_index bf i) n = Some s2 /\
              bytes_consumed s2 = S (Z.to_nat (((Z.of_nat i + n) * bf + 7) / 8)).
 Proof.
   intros Hbf Hn Hb. unfold ibs_skip, st_of_index, U32 in *.
-  destruct (bf_cases _ Hbf) as [-> | [-> | [-> | ->]]]; cbn [Z.eqb Pos.eqb orb].
+  destruct (bf_cases _ Hbf) as [-> | [-> | [-> | ->]]]; cbn [Z.eqb Pos.eqb orb snd] in *.
   - specialize (Hb ltac:(lia)).
     destruct (Z.leb_spec 4294967296 (n * 2)); [lia|].
     destruct (Z.leb_spec 4294967296 (Z.of_nat (2 * (i mod 4)) + n * 2)); [lia|].
@@ -510,7 +510,7 @@ Proof.
 Qed.
 
 Theorem decode_matches_spec data bias maxv :
-  Forall is_byte data -> Z.of_nat (length data) <= 2 ^ 27 -> 0 <= bias -> 0 <= maxv < U32 ->
+  Forall is_byte data -> 0 <= bias -> 0 <= maxv < U32 ->
   match data with
   | h :: _ => Z.shiftr (Z.land h 124) 2 <= max_height (bf_of_bits (Z.land h 3))
   | [] => True
@@ -522,7 +522,7 @@ Theorem decode_matches_spec data bias maxv :
                  forall x, in_ranges x rs = in_ranges x (clip_ranges bias maxv srs)
   end.
 Proof.
-  intros Hby Hlen Hbias Hmax Hsup. destruct data as [|h tree]; [reflexivity|].
+  intros Hby Hbias Hmax Hsup. destruct data as [|h tree]; [reflexivity|].
   inversion Hby as [|? ? Hh Htree]; subst.
   unfold spec_decode, decode. fold (spec_B h). rewrite (spec_B_eq h Hh), <- header_height_eq.
   set (bf := bf_of_bits (Z.land h 3)) in *. set (H := Z.shiftr (Z.land h 124) 2) in *.
@@ -545,16 +545,16 @@ Proof.
   assert (Hs0 : StronglySorted (qR bf H) [(0, 1)]) by (constructor; constructor).
   pose proof (sim bf H bias maxv Hbf ltac:(lia) Hbias Hmax (all_nodes bf tree) Hnb 0%nat [(0, 1)] [] 0 [] Hq0 Hs0
                   (fun x => eq_refl)) as Hsim.
+  pose proof (aloop_count bf H bias maxv Hbf ltac:(lia) (all_nodes bf tree) Hnb 0%nat [(0, 1)] [] Hq0) as Hcount.
   destruct (aloop bf H bias maxv (all_nodes bf tree) 0 [(0, 1)] []) as [i' q' out'| |]; cbn [lift]; [| |contradiction].
   2:{ rewrite Hsim. reflexivity. }
-  destruct Hsafe as (Hi & Hql & _). cbn [length] in Hql, Hlen.
+  destruct Hsafe as (Hi & Hql & Hq'). destruct Hcount as (Hc1 & Hc2).
+  cbn [sumw snd length] in Hc1, Hc2, Hql. replace (H - 1 + 1) with H in Hc1 by lia.
+  destruct (skip_safe bf H i' q' Hbf ltac:(lia) Hq' ltac:(lia) ltac:(destruct Hc2; [left; assumption | right; lia])) as (Hn1 & Hn2).
   destruct Hsim as (S' & Hmem & Ez). rewrite Ez. clear Ez.
-  change (2 ^ 27) with 134217728 in Hlen.
-  assert (Hqb : Z.of_nat (length q') <= 1 + 8 * Z.of_nat (length tree)) by nia.
-  assert (En : Z.of_nat (length q') mod U32 = Z.of_nat (length q')) by (apply Z.mod_small; unfold U32; lia).
+  assert (En : Z.of_nat (length q') mod U32 = Z.of_nat (length q')) by (apply Z.mod_small; lia).
   rewrite En.
-  destruct (skip_consumed bf i' (Z.of_nat (length q')) Hbf ltac:(lia)) as (s2 & Es & Ec).
-  { intros Hb4. unfold U32. nia. }
+  destruct (skip_consumed bf i' (Z.of_nat (length q')) Hbf ltac:(lia) Hn2) as (s2 & Es & Ec).
   rewrite Es, Ec. clear Es Ec.
   pose proof (all_nodes_len bf tree Hbf) as HLe.
   replace (i' - 0)%nat with i' by lia.
